@@ -19,6 +19,9 @@ from .oracle import all_, any_, pick
 R = z3.RealSort()
 
 
+_LSM_OUT = set()
+
+
 def lsm_stub(t, dim, log):
     """log_softmax / softmax as a FUNCTION of the (flagged) row: same inputs -> same outputs; -inf stays -inf / 0;
     finite log-probabilities lie in (-1000, 0] (bounded logits, true under the policies' tanh clipping)"""
@@ -27,6 +30,12 @@ def lsm_stub(t, dim, log):
     out = np.empty(moved.shape, dtype=object)
     for pos in np.ndindex(*moved.shape[:-1]):
         row = [_xr(x) for x in moved[pos]]
+        # library fact: log_softmax is idempotent -- a row that IS the output of an earlier log_softmax call comes back unchanged
+        key = tuple((x.v.get_id() if is_sym(x.v) else repr(x.v), x.ninf.get_id() if is_sym(x.ninf) else repr(x.ninf)) for x in row)
+        if log and key in _LSM_OUT:
+            for j, x in enumerate(row):
+                out[pos + (j,)] = x
+            continue
         args = []
         for x in row:
             args += [_real(s_where(x.ninf, 0.0, x.v)), _real(_bool(x.ninf))]  # the payload under a -inf flag is irrelevant
@@ -38,6 +47,9 @@ def lsm_stub(t, dim, log):
             else:
                 E.assume(z3.And(v >= 0, v <= 1))
                 out[pos + (j,)] = s_where(x.ninf, 0.0, v)
+        if log:
+            o = [out[pos + (j,)] for j in range(len(row))]
+            _LSM_OUT.add(tuple((x.v.get_id() if is_sym(x.v) else repr(x.v), x.ninf.get_id() if is_sym(x.ninf) else repr(x.ninf)) for x in o))
     return T.Tensor(np.moveaxis(out, -1, dim), T.float32)
 
 
@@ -68,7 +80,7 @@ def make_policy(w, n):
     return base.ConstructivePolicy(Enc(), Dec(), env_name="tsp")
 
 
-def rederive(n, seq, forced_first, tag=0.0, temperature=1.0):
+def rederive(n, seq, forced_first, tag=0.0, temperature=1.0, rows_out=None):
     """independent re-derivation for TSP: per-step log-probability of each action of `seq` under the masked,
     normalised distribution of the state reached by the preceding actions (first move forced => contributes 0)"""
     avail, first, cur = [True] * n, None, None
@@ -77,10 +89,14 @@ def rederive(n, seq, forced_first, tag=0.0, temperature=1.0):
         if t == 0:
             if forced_first:
                 steps.append(0.0)
+                if rows_out is not None:
+                    rows_out.append(None)
             else:
                 lg = [T.s_div(x, temperature) for x in state_logits(n, 0, 0, avail, tag=tag)]
                 rowx = [XR(False, l, s_not(av)) for l, av in zip(lg, avail)]
                 lsm = lsm_stub(T.Tensor(np.array([rowx], dtype=object), T.float32), -1, True).a[0]
+                if rows_out is not None:
+                    rows_out.append(list(lsm))
                 p = pick(a, [x.v for x in lsm])
                 steps.append(p)
                 total = T.s_add(total, p)
@@ -90,6 +106,8 @@ def rederive(n, seq, forced_first, tag=0.0, temperature=1.0):
         lg = [T.s_div(x, temperature) for x in state_logits(n, first, cur, avail, tag=tag)]
         rowx = [XR(False, l, s_not(av)) for l, av in zip(lg, avail)]
         lsm = lsm_stub(T.Tensor(np.array([rowx], dtype=object), T.float32), -1, True).a[0]
+        if rows_out is not None:
+            rows_out.append(list(lsm))
         p = pick(a, [x.v for x in lsm])
         steps.append(p)
         total = T.s_add(total, p)
@@ -136,7 +154,7 @@ def ll_job(job_id, decode_type="greedy", n=3, B=2, num_starts=None, temperature=
         flags = T.sym_tensor("relevant", (B, n), T.bool_) if flagged else None
         if flagged:
             td.set("mask", flags)
-        kw = dict(decode_type=decode_type, return_entropy=False)
+        kw = dict(decode_type=decode_type, return_entropy=True)
         if temperature != 1.0:
             kw["temperature"] = temperature
         if multi:
@@ -157,8 +175,19 @@ def ll_job(job_id, decode_type="greedy", n=3, B=2, num_starts=None, temperature=
         ctx.prove(E, f"[{nm}] one row per (instance, start)", rows == B * k and tuple(ll.shape) == (rows,), cexb)
         for r in range(rows):
             seq = list(acts.a[r])
-            _, steps0 = rederive(n, seq, forced_first=multi, tag=locs.a[r % B, 0, 0], temperature=temperature)  # row r belongs to instance r mod B
+            rows_ = []
+            _, steps0 = rederive(n, seq, forced_first=multi, tag=locs.a[r % B, 0, 0], temperature=temperature, rows_out=rows_)  # row r belongs to instance r mod B
             total = _sum([T.s_where(flag(r, t), steps0[t], 0.0) for t in range(n)])
+            if "entropy" in out.keys():
+                # entropy of the step distributions the policy produced along this very sequence: -sum p log p per step (masked entries
+                # through the library's nan_to_num convention), a forced first move contributes 0
+                H = 0.0
+                for row_ in rows_:
+                    if row_ is None:
+                        continue
+                    z = T.nan_to_num(T.Tensor(np.array(row_, dtype=object), T.float32), nan=0.0)
+                    H = T.s_add(H, T.s_neg((z.exp() * z).sum().a[()]))
+                ctx.prove(E, f"[{nm}] row {r}: returned entropy == sum over the non-forced steps of the entropy of the masked-normalised step distribution", s_eq(_val(out["entropy"].a[r]), H), cexb)
             ctx.prove(E, f"[{nm}] row {r}: returned actions form a permutation", z3.Distinct(*[T._int(x) for x in seq]) if n > 1 else True, cexb)
             ctx.prove(E, f"[{nm}] row {r}: log-likelihood == sum over steps of the masked-normalised log-probability of the action taken{' (forced first move contributes 0)' if multi else ''}",
                       s_eq(_val(ll.a[r]), total), cexb)
@@ -172,6 +201,12 @@ def ll_job(job_id, decode_type="greedy", n=3, B=2, num_starts=None, temperature=
             out2 = policy(td.clone(), env, phase="train", actions=acts, return_entropy=True, return_sum_log_likelihood=False, **({"temperature": temperature} if temperature != 1.0 else {}))
             E.obligations = []
             ll2 = out2["log_likelihood"]
+            # the same evaluation with an explicit decode_type next to actions= (as DeepACO's training step passes it): the given actions win
+            out3 = policy(td.clone(), env, phase="train", actions=acts, decode_type=decode_type, return_entropy=True, return_sum_log_likelihood=False, **({"temperature": temperature} if temperature != 1.0 else {}))
+            E.obligations = []
+            for r in range(rows):
+                ctx.prove(E, f"[{nm}] row {r}: actions= together with an explicit decode_type still evaluates the GIVEN actions (same per-step log-probabilities as the plain evaluation)",
+                          all_([s_eq(_val(out3["log_likelihood"].a[r, t]), _val(ll2.a[r, t])) for t in range(n)]) if tuple(out3["log_likelihood"].shape) == tuple(ll2.shape) else False, cexb)
             for r in range(rows):
                 _, steps = rederive(n, list(acts.a[r]), forced_first=False, tag=locs.a[r % B, 0, 0], temperature=temperature)
                 ctx.prove(E, f"[{nm}] row {r}: evaluating the returned actions reproduces the same per-step log-probabilities (flagged steps: zero)",
